@@ -616,6 +616,7 @@ pub fn random_plan(rng: &mut Rng, g: &Graph, family: Family, step: usize) -> Pla
             plan.max_parallel = 1 + rng.below(2);
         }
     }
+    plan.history_before_late_acks = rng.chance(0.5);
     plan
 }
 
@@ -1038,6 +1039,7 @@ fn twin_eval(g: &Graph, h: &History, disk: &BTreeMap<String, String>, rng: &mut 
         _ => Cleanup::AtEnd,
     };
     plan2.use_next_job = next_job;
+    plan2.history_before_late_acks = rng.chance(0.5);
     let r = evaluate(&g2, h, &w, &plan2, mode, stamp, Chooser::Random(Rng::new(plan2.sched_seed)), None);
     let d = w.borrow().disk.clone();
     (r, d)
@@ -1264,6 +1266,9 @@ pub fn eval_step(p: &mut Project, cfg: &ChainCfg, seed: u64, step: usize, edits:
                     }
                     if let Some(d) = hist_diff(hout, u.history_out.as_ref().unwrap(), &cmp) {
                         all_viols.push((mk("C14", "histories-differ", "".into(), format!("returned histories differ: {}", d)), ""));
+                    }
+                    if rep.cleanup_offered != u.cleanup_offered {
+                        all_viols.push((mk("C14", "cleanup-offers-differ", "".into(), format!("Ephemerals offered for cleanup {:?} vs {:?} in the twin (other order / schedule)", rep.cleanup_offered, u.cleanup_offered)), ""));
                     }
                     if cfg.next_job_twin {
                         let (v, _vd) = twin_eval(&p.g, &h_in, &disk_before, &mut trng, &mut p.stamp, mode, true, true);
@@ -1514,6 +1519,42 @@ pub fn eval_step(p: &mut Project, cfg: &ChainCfg, seed: u64, step: usize, edits:
             // control group: validated ephemerals re-executed without a payload change
             let ctrl = p.g.nodes.iter().filter(|n| n.kind == JobKind::Ephemeral && exp.uptodate[&n.id] && rep.succeeded.contains_key(&n.id)).count();
             acc.count("c16_control_reexecutions_without_change", ctrl as u64);
+        }
+        if rep.misuse_calls > 0 && rep.errors.is_empty() {
+            // ---- C20 twin: the same evaluation (same start, same plan, same choice seed) without the illegal calls.
+            // If it makes exactly the same legal calls, everything observable afterwards must be the same too.
+            let mut plan2 = plan.clone();
+            plan2.misuse = Misuse::Off;
+            plan2.trace = false;
+            let w2 = Rc::new(RefCell::new(World { disk: disk_before.clone(), ..Default::default() }));
+            let mut stamp2 = p.stamp;
+            let t = evaluate(&p.g, &h_in, &w2, &plan2, mode, &mut stamp2, Chooser::Random(Rng::new(plan2.sched_seed)), Some(&exp.uptodate));
+            acc.evaluations += 1;
+            // (the stamp of a reported record differs between the two runs: compare the calls without it)
+            let strip = |l: &Vec<String>| -> Vec<String> { l.iter().map(|x| if x.starts_with("ok ") { x.split('|').next().unwrap_or("").to_string() } else { x.clone() }).collect() };
+            if strip(&t.log) == strip(&rep.log) {
+                acc.count("c20_misuse_free_twins_with_identical_calls", 1);
+                for n in &p.g.nodes {
+                    let (a, b) = (rep.disposition(&n.id), t.disposition(&n.id));
+                    if a != b {
+                        all_viols.push((mk("C20", "misuse-changed-later-behaviour", format!("disposition:{}:{}/{}", kind_char(n.kind), a, b), format!("with rejected illegal calls {} ends {}, in the same evaluation without them {}", n.id, a, b)), "misuse-free-twin"));
+                    }
+                }
+                match (&rep.history_out, &t.history_out) {
+                    (Some(a), Some(b)) => {
+                        if let Some(d) = hist_diff(a, b, &cmp) {
+                            all_viols.push((mk("C20", "misuse-changed-later-behaviour", "history".into(), format!("the returned history differs from the one of the same evaluation without the rejected illegal calls: {}", d)), "misuse-free-twin"));
+                        }
+                    }
+                    (None, None) => {}
+                    _ => all_viols.push((mk("C20", "misuse-changed-later-behaviour", "history-missing".into(), "only one of the two evaluations (with / without the rejected illegal calls) returned a history".to_string()), "misuse-free-twin")),
+                }
+                if rep.cleanup_offered != t.cleanup_offered {
+                    all_viols.push((mk("C20", "misuse-changed-later-behaviour", "cleanup".into(), format!("cleanup offers {:?} vs {:?} without the rejected illegal calls", rep.cleanup_offered, t.cleanup_offered)), "misuse-free-twin"));
+                }
+            } else {
+                acc.count("c20_misuse_free_twins_diverged_no_verdict", 1);
+            }
         }
         if rep.misuse_calls > 0 {
             acc.count("c20_misuse_calls", rep.misuse_calls as u64);
